@@ -304,6 +304,16 @@ func proofToPath(
 		if !ok {
 			return nil, fmt.Errorf("proof node not found, expected hash: %s", hash.String())
 		}
+		// The proof set holds one node per hash, but the same hash can occur at several
+		// positions (identical subtrees, e.g. two keys that differ in one bit and hold the
+		// same value). Every position gets its own node: the reconstructed trie is mutated
+		// in place (child linking, unset) and its nodes are compared by identity.
+		switch n := n.(type) {
+		case *trienode.BinaryNode:
+			return n.Copy(), nil
+		case *trienode.EdgeNode:
+			return n.Copy(), nil
+		}
 		return n, nil
 	}
 
